@@ -30,6 +30,11 @@ CHECKS = {
    technique="property-based testing (proptest, in-process): model-based derivation pipeline + arbitrary inputs; invariants and metamorphic relations on the tracker API",
    text="In-process generated search against the library entry points. Pipeline family: files derived edit by edit with known ground truth, replaying the real checkpoint pipeline (fill -> update_attributions -> line projection) after every edit and comparing every line with a content-addressed reference model (unchanged text keeps its author, new non-blank text belongs to the reporter, whitespace-only edits change nothing), plus identical-text invariance, bounds / char-boundary checks and the line->char->line round trip. Arbitrary family: unrelated UTF-8 texts and arbitrary prior sets for totality and bounds. 100k cases quick, 3M thorough.",
    note="Links /repo's library. Identical-text clause is evaluated on canonically sorted priors (tie-break by input order is not claimed). Among duplicate (filler) lines a whitespace edit that creates an off-diagonal equal line is judged weakly (documented R2 guard). Known findings F14/F14b/F15/F25 matched by signature."),
+ "C02": dict(
+   level="exploration", design="DESIGN.md §2 C02",
+   technique="stateful property-based testing (proptest op sequences interpreted against the real binary and a content-addressed model; before/after blame relation per rewriting op)",
+   text="Generated histories (block-structured op sequences with forks, divergent branches, conflicts and generated resolutions, interactive-rebase todo scripts, stash round trips, must-not-change forms) are executed through the real wrapper; after every rewriting op the AI lines reported by `git-ai blame --json` before the op must still be reported for the same session if the line survives, anything newly AI must be right by the content-addressed model, every created commit is judged by the C01 commit oracle, and aborted/refused/dry-run ops must leave existing notes and pending attribution byte-identical.",
+   note="Op alphabet and bounds in harness/src/history.rs (<=24 ops, <=2 files, <=4 branches). Lines chosen in conflict resolutions and lines whose white space was re-touched across commits are judged weakly. Known findings (F2 F5 F14 F25 F26 F27 F29 F30 F31 F32) are matched by root-cause signature and are sticky for the rest of a history once triggered. `cherry-pick -n` and real merges are outside the property's list."),
 }
 
 NOT_YET = "check not built yet (work in progress; see DESIGN.md section 2 for the plan)"
